@@ -1,10 +1,24 @@
 import Mochi.Model.Broker
+import Mochi.Lemmas.BrokerWill
+import Mochi.Props.C03
 /-!
 # C16 — Will messages are published exactly when the protocol requires
 
 Model: `sendLWT`, `detach` (the end of `attachClient`), `processDisconnect`, `tickWills`.
 Schedules of the old connection's teardown against a resuming connection (known finding F16a) are
 the concurrency model's subject.
+
+For every state reachable by a sequential history (`ReachSeq`; lemmas in `Mochi/Lemmas/BrokerWill.lean`):
+* `C16_drop_publishes_will_iff` — connection loss: outputs = will fan-out + will event iff flag ∧ delay = 0; with a
+  delay the will is registered in `willDelayed`; without a will nothing; `C16_drop_will_receivers_partial` — who
+  receives it (`DeliversExactly`, restrictions of the C03 delivery theorem);
+* `C16_disconnect_iff` — DISCONNECT: every reason but 0x04 discards the will and the registered delayed will; 0x04 as a
+  connection loss; restricted to packets that are not the protocol error of
+  `C16_disconnect_violation_publishes_will` (Go: server.go:1431-1434);
+* `C16_delayed_will_iff` — the tick is the fold over the due entries (each once, removed); an admitted CONNECT of the
+  id removes the entry (sequential half of "a resumption cancels it"; F16a: `C16_cancelled_by_resume_counterexample`);
+* `C16_will_at_most_once_seq` — at most once, as state-level facts;
+* non-vacuity: `c16History` (will client dropped, delayed will cancelled / published, DISCONNECT, take-over).
 -/
 namespace Mochi.Broker
 open Mochi.Topics
@@ -82,3 +96,371 @@ example :
     s.willDelayed.length = 0 := by decide
 
 end Mochi.Broker
+
+/-! ## C16 for every sequential history: connection loss -/
+namespace Mochi.Broker
+open Mochi.Topics
+
+/-- what a will publication writes: the fan-out of the will message (`publishToSubscribers`, in the state with the
+    retained store updated if the will is retained), then the event that marks the publication -/
+def willOutputs (s : Server) (c : Client) : List Out :=
+  (publishToSubscribers (retainedState s (willMsg c)) (willMsg c)).2 ++ [willEvent c.id]
+
+/-- the invariants of a reachable state carry over to the state in which the handler learns that the peer is gone -/
+theorem peerLost_inv {s : Server} (hs : SyncInv s) (hw : WF s) (hcm : ConnMap s) (i : Nat) :
+    SyncInv (peerLost s i) ∧ WF (peerLost s i) ∧ ConnMap (peerLost s i) :=
+  ⟨hs.of_quiet ((Quiet.refl s).mod i _ (by qc_rfl)), hw.of_good ((Good.refl s).mod i _ (by cw_rfl)),
+    hcm.of_ck (CK.mod s i _ (fun _ => rfl) (fun _ => rfl))⟩
+
+/-- **C16, connection loss (item 1).**  `s` reachable by a sequential history; `c` = client object `i`, a network
+    client whose handler is in its read loop (not stopped); the op is the loss of `c`'s connection.  Then:
+
+    * will flag set and no will delay: the outputs of the op are EXACTLY the fan-out of the will message followed by
+      the will event (`willOutputs`; the close of the connection itself is not in the projection of a `drop`: the peer
+      closed it); the will flag of the object is cleared and the object is stopped;
+    * will flag set and a will delay: nothing is written, the will is registered in `willDelayed` under the client id,
+      stamped with the time it becomes due;
+    * no will: nothing is written, `willDelayed` is unchanged;
+    * hence: the will event appears iff flag ∧ delay = 0, and a PUBLISH is written to anybody only then. -/
+theorem C16_drop_publishes_will_iff (caps : Caps) (s : Server) (hr : ReachSeq caps s) (i : Nat)
+    (hi : i < s.objs.length) (hin : (getObj s i).inline = false) (hst : (getObj s i).stopped = false) :
+    let c := getObj s i
+    let r := step s (.drop c.conn)
+    (c.will.flag = true ∧ c.will.delay = 0 → r.2 = willOutputs (peerLost s i) c) ∧
+    (c.will.flag = true ∧ c.will.delay > 0 →
+      r.2 = [] ∧ r.1.willDelayed = assocSet s.willDelayed c.id (delayedWillMsg c)) ∧
+    (c.will.flag = false → r.2 = [] ∧ r.1.willDelayed = s.willDelayed) ∧
+    (willEvent c.id ∈ r.2 ↔ c.will.flag = true ∧ c.will.delay = 0) ∧
+    ((∃ n ver m me, Out.wrote n (.publish ver m me) ∈ r.2) → c.will.flag = true ∧ c.will.delay = 0) := by
+  intro c r
+  obtain ⟨_, hw, hcm, _⟩ := hr.inv
+  obtain ⟨e1, e2⟩ := step_drop_live s i hi hst hin (hcm i hi hin)
+  have eo := getObj_peerLost_self s i hi
+  have hwill : (getObj (peerLost s i) i).will = c.will := by rw [eo]
+  have hid : (getObj (peerLost s i) i).id = c.id := by rw [eo]
+  have hmsg := willMsg_peerLost s i hi
+  have now : c.will.flag = true ∧ c.will.delay = 0 → r.2 = willOutputs (peerLost s i) c := by
+    intro ⟨hf, hd⟩
+    show (step s (.drop (getObj s i).conn)).2 = _
+    rw [e1, sendLWT_now _ i (by rw [hwill]; exact hf) (by rw [hwill]; exact hd), hmsg, hid]
+    show List.filter _ (_ ++ _) = _
+    refine FanOut.filter_closed (FanOut.append (publishToSubscribers_fan _ (willMsg c) rfl) ?_) _
+    intro x hx
+    simp at hx
+    subst hx
+    rfl
+  have delayed : c.will.flag = true ∧ c.will.delay > 0 →
+      r.2 = [] ∧ r.1.willDelayed = assocSet s.willDelayed c.id (delayedWillMsg c) := by
+    intro ⟨hf, hd⟩
+    have e := sendLWT_delayed (peerLost s i) i (by rw [hwill]; exact hf) (by rw [hwill]; exact hd)
+    constructor
+    · show (step s (.drop (getObj s i).conn)).2 = _
+      rw [e1, e]; rfl
+    · show (step s (.drop (getObj s i).conn)).1.willDelayed = _
+      rw [e2, e, eo]; rfl
+  have nowill : c.will.flag = false → r.2 = [] ∧ r.1.willDelayed = s.willDelayed := by
+    intro hf
+    have e := sendLWT_noflag (peerLost s i) i (by rw [hwill]; exact hf)
+    constructor
+    · show (step s (.drop (getObj s i).conn)).2 = _
+      rw [e1, e]; rfl
+    · show (step s (.drop (getObj s i).conn)).1.willDelayed = _
+      rw [e2, e]; rfl
+  have cases3 : (c.will.flag = true ∧ c.will.delay = 0) ∨ r.2 = [] := by
+    by_cases hf : c.will.flag = true
+    · by_cases hd : c.will.delay = 0
+      · exact Or.inl ⟨hf, hd⟩
+      · exact Or.inr (delayed ⟨hf, Nat.pos_of_ne_zero hd⟩).1
+    · exact Or.inr (nowill (by simpa using hf)).1
+  refine ⟨now, delayed, nowill, ⟨fun h => ?_, fun h => ?_⟩, fun ⟨n, ver, m, me, h⟩ => ?_⟩
+  · rcases cases3 with h' | h'
+    · exact h'
+    · rw [h'] at h; cases h
+  · rw [now h]
+    exact List.mem_append_right _ List.mem_cons_self
+  · rcases cases3 with h' | h'
+    · exact h'
+    · rw [h'] at h; cases h
+
+/-- **C16, connection loss: WHO receives the will** (restricted as the delivery theorem of C03 is: QoS 0 after
+    shaping, a will topic that is non-empty and has no `#` level — will topics are not validated by the broker —, and no
+    shared subscription matching it; for share groups see `C06_delivery_exact_reach_partial`).  The outputs of the op
+    are `o ++ [will event]` where `o` is delivered exactly: a PUBLISH is written to connection `n` iff `n` is entitled
+    in the state in which the peer is marked gone (so never to the lost connection itself), once, and everything else
+    in `o` is an inline delivery. -/
+theorem C16_drop_will_receivers_partial (caps : Caps) (s : Server) (hr : ReachSeq caps s) (i : Nat)
+    (hi : i < s.objs.length) (hin : (getObj s i).inline = false) (hst : (getObj s i).stopped = false)
+    (hf : (getObj s i).will.flag = true) (hd : (getObj s i).will.delay = 0)
+    (hq : (getObj s i).will.qos = 0 ∨
+      ∀ cid sub, MatchingSub s.topics (getObj s i).will.topic cid sub → sub.qos = 0)
+    (hne : (getObj s i).will.topic ≠ []) (hnh : ∀ t ∈ splitLevels (getObj s i).will.topic, t ≠ [hash])
+    (hsh : (subscribers s.topics (getObj s i).will.topic).shared = []) :
+    ∃ o, (step s (.drop (getObj s i).conn)).2 = o ++ [willEvent (getObj s i).id] ∧
+      ∀ n, DeliversExactly (peerLost s i) (willMsg (getObj s i)) o n := by
+  obtain ⟨hs, hw, hcm, _⟩ := hr.inv
+  obtain ⟨ps, pw, pc⟩ := peerLost_inv hs hw hcm i
+  obtain ⟨is, iw, ic⟩ := retainedState_inv (willMsg (getObj s i)) ps pw pc
+  refine ⟨_, (C16_drop_publishes_will_iff caps s hr i hi hin hst).1 ⟨hf, hd⟩, fun n => ?_⟩
+  have hsh' : (subscribers (retainedState (peerLost s i) (willMsg (getObj s i))).topics
+      (willMsg (getObj s i)).topic).shared = [] :=
+    (retainedState_shared (peerLost s i) (willMsg (getObj s i)) ps.idx _ hne hnh).mpr hsh
+  obtain ⟨g1, g2, g3, g4⟩ := C03_delivery_exact_inv_partial _ is iw ic (willMsg (getObj s i)) rfl rfl
+    (hq.imp id (fun h cid sub hm => h cid sub
+      ((matchingSub_congr (retainedState_quiet (peerLost s i) _).plain _ cid sub).mp hm)))
+    hne hnh hsh' n
+  rw [entitledF03_retainedState] at g1 g2
+  rw [entitledSession_retainedState] at g2
+  exact ⟨g1, g2, g3, g4⟩
+
+/-! ## C16 for every sequential history: DISCONNECT -/
+
+/-- **C16, DISCONNECT (item 2).**  `s` reachable by a sequential history; `c` = client object `i`, a network client
+    with an open connection; the op is a DISCONNECT packet on `c`'s connection with reason code `rc` and (MQTT 5,
+    optional) session expiry interval `sei`; the packet is not the protocol error "session expiry raised from zero"
+    (`seiViolation`, see `C16_disconnect_violation_publishes_will`).  An MQTT 3 DISCONNECT has no reason code: `rc = 0`.
+
+    * `rc ≠ 0x04` (0x00 and every other reason code): the outputs are exactly the close of the connection — no will
+      event, no PUBLISH to anybody —, the delayed will registered under the id is removed, the will of the object is
+      cleared and the object is stopped;
+    * `rc = 0x04`: as a connection loss (item 1) — with the will flag set and no delay the outputs are exactly the
+      will's fan-out and event, then the close; with a delay the will is registered in `willDelayed`; without a will
+      nothing but the close.
+    * hence: the will event appears iff `rc = 0x04 ∧ flag ∧ delay = 0`. -/
+theorem C16_disconnect_iff (caps : Caps) (s : Server) (hr : ReachSeq caps s) (i rc : Nat) (sei : Option Nat)
+    (hi : i < s.objs.length) (hin : (getObj s i).inline = false) (hopen : (getObj s i).isOpen = true)
+    (hv : seiViolation (getObj s i) sei = false) :
+    let c := getObj s i
+    let r := step s (.recv c.conn (.disconnect rc sei))
+    (rc ≠ 0x04 → r.2 = [.closed c.conn] ∧ r.1.willDelayed = assocDel s.willDelayed c.id ∧
+      (getObj r.1 i).will.flag = false ∧ (getObj r.1 i).stopped = true) ∧
+    (rc = 0x04 →
+      (c.will.flag = true ∧ c.will.delay = 0 →
+        r.2 = willOutputs (discState s i sei) c ++ [.closed c.conn]) ∧
+      (c.will.flag = true ∧ c.will.delay > 0 →
+        r.2 = [.closed c.conn] ∧ r.1.willDelayed = assocSet s.willDelayed c.id (delayedWillMsg c)) ∧
+      (c.will.flag = false → r.2 = [.closed c.conn] ∧ r.1.willDelayed = s.willDelayed)) ∧
+    (willEvent c.id ∈ r.2 ↔ rc = 0x04 ∧ c.will.flag = true ∧ c.will.delay = 0) := by
+  intro c r
+  obtain ⟨hs, hw, hcm, _⟩ := hr.inv
+  have hst : (getObj s i).stopped = false := by
+    have := hs.os i
+    rw [hopen] at this
+    simpa using this.symm
+  have hc := hcm i hi hin
+  have normal := fun hrc => step_disconnect_normal s i rc sei hi hrc hv hopen hst hin hc
+  have g := getObj_discState s i sei hi
+  have k := discObj_keep c sei
+  have hmsg : willMsg (getObj (discState s i sei) i) = willMsg c := by
+    rw [g]; unfold willMsg; rw [k.will, k.id]
+  have hdm : delayedWillMsg (getObj (discState s i sei) i) = delayedWillMsg c := by
+    rw [g]; unfold delayedWillMsg willMsg; rw [k.will, k.id]
+  have withWill : rc = 0x04 →
+      (c.will.flag = true ∧ c.will.delay = 0 → r.2 = willOutputs (discState s i sei) c ++ [.closed c.conn]) ∧
+      (c.will.flag = true ∧ c.will.delay > 0 →
+        r.2 = [.closed c.conn] ∧ r.1.willDelayed = assocSet s.willDelayed c.id (delayedWillMsg c)) ∧
+      (c.will.flag = false → r.2 = [.closed c.conn] ∧ r.1.willDelayed = s.willDelayed) := by
+    intro hrc
+    subst hrc
+    obtain ⟨e1, e2⟩ := step_disconnect_with_will s i sei hi hv hopen hst hin hc
+    refine ⟨fun ⟨hf, hd⟩ => ?_, fun ⟨hf, hd⟩ => ?_, fun hf => ?_⟩
+    · show (step s (.recv (getObj s i).conn (.disconnect 0x04 sei))).2 = _
+      rw [e1, sendLWT_now _ i (by rw [g, k.will]; exact hf) (by rw [g, k.will]; exact hd), hmsg, g, k.id]
+      rfl
+    · have e := sendLWT_delayed (discState s i sei) i (by rw [g, k.will]; exact hf) (by rw [g, k.will]; exact hd)
+      constructor
+      · show (step s (.recv (getObj s i).conn (.disconnect 0x04 sei))).2 = _
+        rw [e1, e]; rfl
+      · show (step s (.recv (getObj s i).conn (.disconnect 0x04 sei))).1.willDelayed = _
+        rw [e2, e, hdm, g, k.id]; rfl
+    · have e := sendLWT_noflag (discState s i sei) i (by rw [g, k.will]; exact hf)
+      constructor
+      · show (step s (.recv (getObj s i).conn (.disconnect 0x04 sei))).2 = _
+        rw [e1, e]; rfl
+      · show (step s (.recv (getObj s i).conn (.disconnect 0x04 sei))).1.willDelayed = _
+        rw [e2, e]; rfl
+  refine ⟨normal, withWill, ⟨fun h => ?_, fun ⟨hrc, hf, hd⟩ => ?_⟩⟩
+  · have hne : willEvent c.id ≠ .closed c.conn := by unfold willEvent; intro h; cases h
+    by_cases hrc : rc = 0x04
+    · obtain ⟨w1, w2, w3⟩ := withWill hrc
+      by_cases hf : c.will.flag = true
+      · by_cases hd : c.will.delay = 0
+        · exact ⟨hrc, hf, hd⟩
+        · rw [(w2 ⟨hf, Nat.pos_of_ne_zero hd⟩).1] at h
+          simp at h; exact absurd h hne
+      · rw [(w3 (by simpa using hf)).1] at h
+        simp at h; exact absurd h hne
+    · rw [(normal hrc).1] at h
+      simp at h; exact absurd h hne
+  · rw [((withWill hrc).1 ⟨hf, hd⟩)]
+    unfold willOutputs
+    simp
+
+/-- the restriction `seiViolation = false` of `C16_disconnect_iff` is needed: a DISCONNECT with reason 0x00 that raises
+    the session expiry interval from zero is a protocol error (Go behaviour, not a model artefact: server.go:1431-1434
+    `processDisconnect` returns `ErrProtocolViolationZeroNonZeroExpiry`), the read loop ends with an error and the will IS published — the
+    behaviour MQTT 5 §3.14.2.2.2 / §3.1.2.5 prescribes for a protocol error. -/
+theorem C16_disconnect_violation_publishes_will :
+    let s := runSrv (init {})
+      [.connect 1 { ver := 5, id := [99, 49], will := some { topic := [120], payload := [119] } }]
+    seiViolation (getObj s 1) (some 10) = true ∧
+    willEvent [99, 49] ∈ (step s (.recv 1 (.disconnect 0 (some 10)))).2 := by
+  decide
+
+/-! ## C16: delayed wills, and at most once -/
+
+/-- **C16, delayed wills (item 3).**  For every state `s` and time `t`, the housekeeping op `tick "wills" t`:
+
+    1. is the fold of `publishDue` over `dueWills s t` — the registered delayed wills with `t > expiry`, in the order
+       of the table: every due will is handled exactly once, no other entry is touched;
+    2. one due entry `e` writes the fan-out of its message (`publishToSubscribers`), then the will event iff the client
+       id is still registered; it leaves the Clients map alone and removes the entries of that id from `willDelayed`;
+    3. afterwards `willDelayed` holds exactly the entries whose id is not the id of a due entry — when `willDelayed`
+       is a map (one entry per id, as `assocSet` / `assocDel` keep it): exactly the entries not yet due;
+    4. if nothing is due, nothing is written and nothing changes.
+
+    And the sequential half of "a resumption in time cancels it":
+
+    5. after an admitted CONNECT (`connect`: `attachClient` up to the read loop; admitted = `refuseCode … = none`) no
+       entry of `willDelayed` has the client id of the CONNECT, whatever was registered before — it was removed
+       (`admitC`), and no later tick can publish it (1.).  The schedule-dependent half is the recorded finding
+       F16a: `C16_cancelled_by_resume_counterexample`. -/
+theorem C16_delayed_will_iff (s : Server) (t : Int) :
+    (step s (.tick "wills" t) = (dueWills s t).foldl publishDue (s, [])) ∧
+    (∀ (acc : Server × List Out) (e : Str × Msg),
+      (publishDue acc e).2 = acc.2 ++ (publishToSubscribers acc.1 e.2).2 ++
+        (if (assocGet acc.1.clients e.1).isSome then [willEvent e.1] else []) ∧
+      (publishDue acc e).1.clients = acc.1.clients ∧
+      (publishDue acc e).1.willDelayed = assocDel acc.1.willDelayed e.1) ∧
+    ((∀ e, e ∈ (step s (.tick "wills" t)).1.willDelayed ↔ e ∈ s.willDelayed ∧ ∀ d ∈ dueWills s t, d.1 ≠ e.1) ∧
+     ((s.willDelayed.map (·.1)).Nodup →
+       ∀ e, e ∈ (step s (.tick "wills" t)).1.willDelayed ↔ e ∈ s.willDelayed ∧ ¬ t > e.2.expiry)) ∧
+    ((∀ e ∈ s.willDelayed, ¬ t > e.2.expiry) → step s (.tick "wills" t) = (s, [])) ∧
+    (∀ (conn : Nat) (k : Connect),
+      refuseCode { s with objs := s.objs ++ [parseConnect s conn k], connOf := s.connOf ++ [(conn, s.objs.length)] } k
+        (parseConnect s conn k) = none →
+      ∀ e ∈ (connect s conn k).1.willDelayed, e.1 ≠ k.id) := by
+  rw [step_tick_wills]
+  exact ⟨tickWills_eq s t, publishDue_out, ⟨(tickWills_willDelayed s t).2, tickWills_willDelayed_nodup s t⟩,
+    tickWills_nothing_due s t, connect_admitted_willDelayed s⟩
+
+/-- **C16, at most once (item 3), as state-level facts** (a count over a whole history would have to tell the wills of
+    successive connections of one client id apart; the event carries the id only).  `s` reachable by a sequential
+    history, `c` = live network client object `i`:
+
+    1. after the loss of its connection the object is stopped; if the will was published at once (flag, no delay) the
+       will flag of the object is cleared — so `sendLWT` for this object writes nothing (`C16_no_will`); with a delay
+       the will is in `willDelayed` under the id (`C16_drop_publishes_will_iff`), one entry per id;
+    2. a stopped object's handler is gone: `drop`, `recv`, `recvCut` on its connection do nothing, and a CONNECT of the
+       same client id finds no live handler to take over (no `detach`, hence no `sendLWT`, for it);
+    3. a delayed will that the tick published is removed by that tick: no entry of its id is left, so no later tick
+       publishes it again (`C16_delayed_will_iff` 1. and 3.). -/
+theorem C16_will_at_most_once_seq (caps : Caps) (s : Server) (hr : ReachSeq caps s) :
+    (∀ i, i < s.objs.length → (getObj s i).inline = false → (getObj s i).stopped = false →
+      (getObj (step s (.drop (getObj s i).conn)).1 i).stopped = true ∧
+      ((getObj s i).will.flag = true → (getObj s i).will.delay = 0 →
+        (getObj (step s (.drop (getObj s i).conn)).1 i).will.flag = false ∧
+        sendLWT (step s (.drop (getObj s i).conn)).1 i = ((step s (.drop (getObj s i).conn)).1, []))) ∧
+    (∀ conn i, assocGet s.connOf conn = some i → (getObj s i).stopped = true →
+      step s (.drop conn) = (s, []) ∧ (∀ pk, step s (.recv conn pk) = (s, [])) ∧
+      (∀ pk, step s (.recvCut conn pk) = (s, [])) ∧
+      (∀ j (k : Connect), assocGet s.clients k.id = some i → (admitA s j k).2.2.2 = none)) ∧
+    (∀ t e, e ∈ dueWills s t → ∀ t', ∀ d ∈ dueWills (step s (.tick "wills" t)).1 t', d.1 ≠ e.1) := by
+  obtain ⟨hs, hw, hcm, _⟩ := hr.inv
+  refine ⟨fun i hi hin hst => ?_, fun conn i hc hst => ?_, fun t e he t' d hd => ?_⟩
+  · obtain ⟨a, b⟩ := step_drop_live_obj s i hi hst hin (hcm i hi hin)
+    exact ⟨a, fun hf hd => ⟨b hf hd, sendLWT_noflag _ i (b hf hd)⟩⟩
+  · have hop : (getObj s i).isOpen = false := by rw [hs.os i, hst]; rfl
+    obtain ⟨a, b, c⟩ := step_stopped_noop s conn i hc hst hop
+    exact ⟨a, b, c, fun j k hk => admitA_stopped_no_takeover s j k i hk hst⟩
+  · rw [step_tick_wills] at hd
+    unfold dueWills at hd
+    have hm := (List.mem_filter.mp hd).1
+    exact fun h => ((tickWills_willDelayed s t).2 d).mp hm |>.2 e he h.symm
+
+end Mochi.Broker
+
+/-! ## Non-vacuity: a subscriber, a will client, a client with a delayed will -/
+namespace Mochi.Broker
+open Mochi.Topics
+
+/-- `s` (connection 1, object 1) subscribes to `x`; `c1` (connection 2, object 2) has the will `x ← w`, no delay; `c2`
+    (connection 3, object 3, session expiry 100 s) has the will `x ← d` with a delay of 50 s -/
+def c16History : List Op :=
+  [.connect 1 { ver := 5, id := [115] },
+   .recv 1 (.subscribe 1 0 [{ filter := [120] }]),
+   .connect 2 { ver := 5, id := [99, 49], will := some { topic := [120], payload := [119] } },
+   .connect 3 { ver := 5, clean := false, id := [99, 50], sei := some 100,
+                will := some { topic := [120], payload := [100], delay := 50 } }]
+
+def c16State : Server := run (init {}) c16History
+
+theorem c16State_reach : ReachSeq {} c16State := ReachSeq.init.run c16History (by decide) (by decide)
+
+/-- the hypotheses of the theorems hold for objects 2 and 3 -/
+example : 2 < c16State.objs.length ∧ (getObj c16State 2).inline = false ∧ (getObj c16State 2).stopped = false ∧
+    (getObj c16State 2).isOpen = true ∧ (getObj c16State 2).conn = 2 ∧ (getObj c16State 2).will.flag = true ∧
+    (getObj c16State 2).will.delay = 0 ∧ (getObj c16State 3).conn = 3 ∧ (getObj c16State 3).will.delay = 50 := by decide
+
+/-- **the will client is dropped**: its will reaches the subscriber on connection 1, then the will event; nothing else -/
+example : (step c16State (.drop 2)).2.filterMap pubConn = [1] ∧ (step c16State (.drop 2)).2.length = 2 ∧
+    willEvent [99, 49] ∈ (step c16State (.drop 2)).2 ∧ (step c16State (.drop 2)).1.willDelayed.length = 0 := by decide
+
+/-- `C16_drop_publishes_will_iff` instantiated: the outputs are the will outputs -/
+example : (step c16State (.drop 2)).2 = willOutputs (peerLost c16State 2) (getObj c16State 2) :=
+  (C16_drop_publishes_will_iff {} c16State c16State_reach 2 (by decide) (by decide) (by decide)).1 ⟨by decide, by decide⟩
+
+/-- … and who receives it (`C16_drop_will_receivers_partial` instantiated) -/
+example : ∃ o, (step c16State (.drop 2)).2 = o ++ [willEvent [99, 49]] ∧
+    ∀ n, DeliversExactly (peerLost c16State 2) (willMsg (getObj c16State 2)) o n :=
+  C16_drop_will_receivers_partial {} c16State c16State_reach 2 (by decide) (by decide) (by decide) (by decide) (by decide)
+    (Or.inl (by decide)) (by decide) (by decide) (by decide)
+
+/-- **a delayed will**: the drop writes nothing and registers the will, due at `NOW + 50` -/
+example : (step c16State (.drop 3)).2 = [] ∧
+    (step c16State (.drop 3)).1.willDelayed.map (fun e => (e.1, e.2.expiry)) = [([99, 50], NOW + 50)] := by decide
+
+/-- **… cancelled by a resumption in time**: the CONNECT of the same client id removes it, nothing but the CONNACK
+    (session present) is written, and the tick after the delay publishes nothing -/
+example :
+    let s1 := (step c16State (.drop 3)).1
+    let r := step s1 (.connect 4 { ver := 5, clean := false, id := [99, 50], sei := some 100 })
+    r.2 = [.wrote 4 (.connack 5 true 0 1024 2 none)] ∧ r.1.willDelayed.length = 0 ∧
+    (step r.1 (.tick "wills" (NOW + 3000))).2 = [] := by decide
+
+/-- **… published by the tick once the delay has elapsed** (not before), reaching the subscriber; the entry is removed,
+    a second tick publishes nothing -/
+example :
+    let s1 := (step c16State (.drop 3)).1
+    (step s1 (.tick "wills" (NOW + 50))).2 = [] ∧
+    (step s1 (.tick "wills" (NOW + 51))).2.filterMap pubConn = [1] ∧
+    willEvent [99, 50] ∈ (step s1 (.tick "wills" (NOW + 51))).2 ∧
+    (step s1 (.tick "wills" (NOW + 51))).1.willDelayed.length = 0 ∧
+    (step (step s1 (.tick "wills" (NOW + 51))).1 (.tick "wills" (NOW + 52))).2 = [] := by decide
+
+/-- **DISCONNECT**: reason 0x00 closes the connection and writes nothing else; reason 0x04 publishes the will -/
+example : (step c16State (.recv 2 (.disconnect 0 none))).2 = [.closed 2] ∧
+    (step c16State (.recv 2 (.disconnect 4 none))).2.filterMap pubConn = [1] ∧
+    willEvent [99, 49] ∈ (step c16State (.recv 2 (.disconnect 4 none))).2 := by decide
+
+/-- `C16_disconnect_iff` instantiated -/
+example : (step c16State (.recv 2 (.disconnect 0 none))).2 = [.closed 2] :=
+  ((C16_disconnect_iff {} c16State c16State_reach 2 0 none (by decide) (by decide) (by decide) (by decide)).1
+    (by decide)).1
+
+/-- **a take-over**: the CONNECT of `c1` on connection 4 while connection 2 is live: DISCONNECT 0x8E and close on
+    connection 2, the CONNACK on 4, then the old connection's will reaches the subscriber (a take-over publishes the
+    will) -/
+example :
+    let r := step c16State (.connect 4 { ver := 5, id := [99, 49] })
+    r.2.take 3 = [.wrote 2 (.disconnect 5 0x8E), .closed 2, .wrote 4 (.connack 5 false 0 1024 2 none)] ∧
+    r.2.filterMap pubConn = [1] ∧ willEvent [99, 49] ∈ r.2 ∧ r.2.length = 5 := by decide
+
+end Mochi.Broker
+
+#print axioms Mochi.Broker.C16_drop_publishes_will_iff
+#print axioms Mochi.Broker.C16_drop_will_receivers_partial
+#print axioms Mochi.Broker.C16_disconnect_iff
+#print axioms Mochi.Broker.C16_disconnect_violation_publishes_will
+#print axioms Mochi.Broker.C16_delayed_will_iff
+#print axioms Mochi.Broker.C16_will_at_most_once_seq
+#print axioms Mochi.Broker.c16State_reach
